@@ -145,6 +145,8 @@ ALSO = {
     'C11': ['server.Server._handle_eio_message', 'async_server.AsyncServer._handle_eio_message'],
     'C12': ['base_manager.BaseManager.is_connected', 'base_manager.BaseManager.eio_sid_from_sid'],
     'C20': ['base_manager.BaseManager.basic_disconnect', 'base_manager.BaseManager.can_disconnect'],
+    # "an acknowledgement addressed to another server never completes a local callback" (C15) is _return_callback's clause
+    'C15': ['pubsub_manager.PubSubManager._return_callback', 'async_pubsub_manager.AsyncPubSubManager._return_callback'],
 }
 
 
